@@ -257,7 +257,8 @@ func (c *Channel) JoinPresence(ctx context.Context, p stanza.Presence, opt ...Op
 	if c.client.managed == nil {
 		c.client.managed = make(map[string]*Channel)
 	}
-	if other, ok := c.client.managed[key]; ok && other != c {
+	other, registered := c.client.managed[key]
+	if registered && other != c {
 		c.client.managedM.Unlock()
 		return ErrOccupantInUse
 	}
@@ -283,6 +284,17 @@ func (c *Channel) JoinPresence(ctx context.Context, p stanza.Presence, opt ...Op
 	select {
 	case c.join <- joinCtx:
 	case <-ctx.Done():
+		// Nothing was queued or sent. If this call made the registration, take it
+		// back: nobody would ever remove it. A registration that was there before
+		// (the nickname we hold, the one a pending call has asked for) and the
+		// hand-off request of a pending call are not ours to touch.
+		if !registered {
+			c.client.managedM.Lock()
+			if c.client.managed[key] == c {
+				delete(c.client.managed, key)
+			}
+			c.client.managedM.Unlock()
+		}
 		return ctx.Err()
 	}
 	go func(errChan chan<- error) {
